@@ -37,6 +37,20 @@ CHECKS.update({
  'C12': ('index-space typing of TransientSolution, E1 wiring of model construction, solver arguments and output-row pairing',
          'Decides that the model is built at w=0 from the circuit\'s own C/L values in listing order, inputs follow the published source order (= columns of B), the solver receives (A,B,I,0), u^T, tin, zero state, and each getter pairs c_row_Q with d_row_Q for the same id. Accuracy of lsim and the differential relations per sample are not decided.', '4/C12'),
 })
+CHECKS.update({
+ 'C08': ('E1 normal forms of each wave class\'s time function and of the phasor A_n e^{j phi_n} per case (n=0, n=1, even, odd) against a hand-derived reference table; a/b/c conversions; lookup tables',
+         'Decides that for each of the six waveforms both the time function and the harmonic coefficients equal one row of the reference table (so the coefficients are those of the waveform\'s own time function, up to the correctness of the table), the a/b/c and +-n relations, and the lookup wiring. Convergence / Parseval for actual numbers is not decided.', '4/C08'),
+ 'C09': ('E1 normal forms of the frequency list, of the time-domain sum and of the solution wiring; contradiction rule on frequency comparison; type rule on the two-sided branch',
+         'Decides the frequency-list construction, the sum |X|cos(wt+arg X) with values and frequencies paired in the same order, peak phasors per frequency, harmonic selection, and reports two recorded genuine defects (exact-hash de-duplication, two-sided branch) as KNOWN-FINDING. KCL at every instant and truncation error are not decided.', '4/C09'),
+ 'C13': ('symbol->component table exhaustiveness, E1 normal forms of every translator (kind, id, nodes, values, reversal, degree conversion), reversal rule of the symbol classes, rounding / labelling path',
+         'Decides that every symbol class has a translator building the matching kind from the symbol\'s own quantities, the reversal rule on translators and classes, the degree conversion, and that every terminal coordinate goes through one rounding function and one equipotential map. Geometric invariance of actual drawings is not decided.', '4/C13'),
+ 'C14': ('E1 normal form of the value handed to each formatter (sign rule), formatter/unit/option pairing, label factories, constructor wiring, SI tables',
+         'Decides for every adapter x quantity that the formatted value is (-1 if reverse else 1) x solution.get_Q(name) with the right unit and forwarded options, that draw_Q queries the name and direction it labels, and the constructor / declarative-kind wiring. The rendered text for actual numbers is not decided.', '4/C14'),
+ 'C15': ('agreement of the repository\'s own tables (type strings, loader keys, constructor parameters, value keys, fields written/restored, handler table) and a symbolic save->load->translate fixed-point check',
+         'Decides that each loader key rebuilds the class of that type from value keys its component kind really writes, that written = restored fields, the handler / direction / placement tables, and that re-translating the rebuilt symbol reproduces every fed-back value for all flag combinations (four recorded genuine defects are reported as KNOWN-FINDING). Equality of the reloaded drawing is not decided.', '4/C15'),
+ 'C18': ('structural part only: SI prefix tables, exponent multiple of three by construction (E1), sign glyph guards, saturation tested first',
+         'Decides only the table / structural clauses. The property\'s main clause -- half-unit accuracy of the digit string for every binary64 value -- is string arithmetic on run-time values and is NOT decided.', '4/C18'),
+})
 NOT_YET = {}
 ALL = [f'C{i:02d}' for i in range(1, 21)]
 NA_REASON = 'checker not built yet in this session (planned in DESIGN.md section 4); no claim is made'
